@@ -57,22 +57,26 @@ class PathV:
 
 class CanonPathV(PathV):
     """what std::fs::canonicalize returns for node `node`: an absolute path of `depth` components"""
-    __slots__ = ('depth',)
+    __slots__ = ('depth', 'is_fsroot')
 
     def __init__(self, node, depth, text=None):
         PathV.__init__(self, node, text if text is not None else '<canonical path of n%s>' % node)
         self.depth = depth
 
     def clone_model(self, ctx):
-        return CanonPathV(self.node, self.depth, self.text)
+        c = CanonPathV(self.node, self.depth, self.text)
+        c.is_fsroot = getattr(self, 'is_fsroot', BoolVal(False))
+        return c
 
     def as_str(self, ctx):
-        return CanonStr(self.node, self.depth)
+        t = CanonStr(self.node, self.depth)
+        t.is_fsroot = getattr(self, 'is_fsroot', BoolVal(False))
+        return t
 
 
 class CanonStr(Str):
     """canonical absolute path text of a node: only its number of '/' (the depth) is observable"""
-    __slots__ = ('depth', 'node')
+    __slots__ = ('depth', 'node', 'is_fsroot', 'trimmed')
 
     def __init__(self, node, depth):
         Str.__init__(self)
@@ -116,8 +120,11 @@ class FS:
     """the abstract file system of one symbolic run"""
 
     def __init__(self, ctx, M, roots=1, kinds=(FILE, DIR, LINK), faults=False, archives=False, max_members=2,
-                 follow=False):
+                 follow=False, fsroot=False):
         self.ctx, self.M, self.nroots = ctx, M, roots
+        # fsroot: the (first) root may be the root of the file system itself — its canonical text `/` has ONE separator, and so has the
+        # text `/x` of an entry directly inside it (everywhere else an entry has one separator more than its directory)
+        self.fsroot = ctx.fresh_bool('root_is_the_filesystem_root') if fsroot else BoolVal(False)
         self.parent = [None] * M; self.kind = [None] * M
         self.rd_fault = [BoolVal(False)] * M; self.ft_fault = [BoolVal(False)] * M
         self.is_zip = [BoolVal(False)] * M; self.zip_ok = [BoolVal(True)] * M; self.members = [BitVecVal(0, 8)] * M
@@ -128,6 +135,8 @@ class FS:
             self.kind[r] = BitVecVal(DIR, 8)
             rd = ctx.fresh_bv('rootdepth%d' % r, 32)
             ctx.assume(And(UGE(rd, BitVecVal(1, 32)), ULE(rd, BitVecVal(4, 32))))
+            if fsroot and r == 0:
+                ctx.assume(z3.Implies(self.fsroot, rd == 1))
             self.rootdepth.append(rd)
         for i in range(roots, M):
             p = ctx.fresh_bv('p%d' % i, 8)
@@ -287,7 +296,7 @@ def models():
         if node is not None and ctx.decide(fs_of(ctx).nonutf8_bit(node)):
             return none()
         if isinstance(p, CanonPathV):
-            return some(CanonStr(p.node, p.depth))
+            return some(p.as_str(ctx))
         if isinstance(p, PathV):
             return some(Str(p.text))
         return some(as_str(ctx, p))
@@ -296,7 +305,7 @@ def models():
     def path_lossy(ctx, args, callee):
         p = ctx.deref(args[0])
         if isinstance(p, CanonPathV):
-            return EnumV(0, {0: [CanonStr(p.node, p.depth)]}, 'Cow')
+            return EnumV(0, {0: [p.as_str(ctx)]}, 'Cow')
         if isinstance(p, PathV):
             return EnumV(0, {0: [Str(p.text)]}, 'Cow')
         return EnumV(0, {0: [as_str(ctx, p)]}, 'Cow')
@@ -317,15 +326,30 @@ def models():
             ctx.ghost.setdefault('faulted', []).append(('canon', n))
             return err(IoError('<canonicalize failed>'))
         depth = fs.rootdepth[fs.root_of[n]] + BitVecVal(fs.rel_depth[n], 32)
-        return ok(CanonPathV(n, depth))
+        if fs.root_of[n] == 0 and fs.rel_depth[n] >= 1 and not z3.is_false(fs.fsroot):
+            depth = If(fs.fsroot, depth - 1, depth)       # `/x`: no separator more than `/`
+        cp = CanonPathV(n, depth)
+        cp.is_fsroot = fs.fsroot if (fs.root_of[n] == 0 and fs.rel_depth[n] == 0) else BoolVal(False)
+        return ok(cp)
 
     @reg(r'^(core::)?str::<impl str>::matches$')
     def str_matches(ctx, args, callee):
         s = ctx.deref(args[0])
         pat = ctx.deref(args[1])
         if isinstance(s, CanonStr) and isinstance(pat, Str) and pat.s == '/':
+            if getattr(s, 'trimmed', False) and ctx.decide(getattr(s, 'is_fsroot', BoolVal(False))):
+                return MatchCount(BitVecVal(0, 32))         # `/` without its trailing separator is the empty text
             return MatchCount(s.depth)
         raise Unmodelled('str::matches(%r, %r)' % (s, pat))
+
+    @reg(r'^(core::)?str::<impl str>::trim_end_matches$')
+    def trim_end_matches(ctx, args, callee):
+        s = ctx.deref(args[0]); pat = args[1]
+        slash = (z3.is_bv(pat) and conc(pat) == ord('/')) or (isinstance(ctx.deref(pat) if isinstance(pat, Ref) else pat, Str) and (ctx.deref(pat) if isinstance(pat, Ref) else pat).s == '/')
+        if isinstance(s, CanonStr) and slash:
+            t = CanonStr(s.node, s.depth); t.is_fsroot = getattr(s, 'is_fsroot', BoolVal(False)); t.trimmed = True
+            return t             # a canonical path ends in a separator only when it is `/` itself
+        raise Unmodelled('trim_end_matches(%r, %r)' % (s, pat))
 
     @reg(r'^<(core::)?str::Matches<.*> as Iterator>::count$|^<Matches<.*> as Iterator>::count$')
     def matches_count(ctx, args, callee):
